@@ -138,6 +138,10 @@ func (d *driver) setup(p rlwe.Parameters, N, t int, pts []uint64, toy bool, maxP
 		shares := make([]multiparty.ShamirSecretShare, N)
 		for i := 0; i < N; i++ {
 			shares[i] = thr.AllocateThresholdSecretShare()
+			if (i+j)%2 == 1 && i > 0 {
+				// a dealer reusing one buffer for successive recipients: it holds the previous share
+				shares[i].Copy(shares[i-1].Poly)
+			}
 			thr.GenShamirSecretShare(multiparty.ShamirPublicPoint(pts[j]), polys[i], &shares[i])
 			if toy {
 				d.emit(event{Ev: "share", Dealer: i + 1, X: red(pts[j]), Val: cp(shares[i].Q.Coeffs[0])})
